@@ -754,3 +754,10 @@ func maxInt(a, b int) int {
 }
 
 var _ = bits.Len
+
+func (tt *Terms) Concat(a, b *Term) *Term {
+	if a.IsConst() && b.IsConst() {
+		return tt.Const(a.w+b.w, a.val<<uint(b.w)|b.val)
+	}
+	return tt.mk(OpConcat, a.w+b.w, 0, "", a, b)
+}
